@@ -620,7 +620,7 @@ func direct(c *hx.Ctx) {
 }
 
 func Run(c *hx.Ctx) {
-	c.Rep.Rule = "direct: random tables (1..14 rows x 1..12 cols; cells from an alphabet with '|', newline, spaces, empty, unicode, markdown punctuation and backslashes — about one cell in five carries one: in front of a pipe, of another backslash, of a newline, at the end of the cell, alone; regular-expression, path and LaTeX-like cells) through all six ToMarkdown writers; escape sweep: EVERY cell text over {backslash, pipe, letter, space} up to length 4 (thorough: plus newline, up to length 5), four per 2x2 table, through all six writers, docx/odt also with random ColSpan/vertical-merge cells; htmldoc tables with colspan/rowspan (htmlspan.go): 300 (thorough 4000) authored grids tiled with merged rectangles (1..9 rows x 1..8 columns, spelled as HTML does: the top-left cell carries the spans, covered positions have no cell, so rows all of whose cells are covered are rows without cells; short rows; a span of 1 written 1 or 0) whose expectation is the authored grid itself, half as many raw tables (0..4 cells per row, spans from -1, 0, 1..4, 1024, 1025, 2^31: overlapping cells, rowspans beyond the last row, spans that are not believed) of which every line must have the same number of cells and every row its texts in order, fixed witnesses, and the grid limit of 2^20 cells from both sides (thorough), each through ParsedTable.ToMarkdown and through the model table Document() builds; levels: the full box level -1..10 x offset -3..8 x max 0..7; documents: random block sequences (headings of every level the format expresses — DOCX 1..9 as built-in style / direct outlineLvl / custom style / derived style, ODT 1..10, HTML 1..6, PPTX titles —, paragraphs, nested lists depth<=3, tables with merges) written by independent DOCX/ODT/PPTX/HTML/XLSX writers under all Markdown options (metadata x TOC x offset -2..+7 x max 1..6, enumerated); heading sweep: per format files with a heading of every expressible level, each read under all 70 configurations (offset -2..+7 x max 0..6) through Reader.MarkdownWithRAGOptions, tabula.Open.ToMarkdownWithOptions and once through Reader.Markdown, Reader.MarkdownWithOptions, tabula.Open.ToMarkdown; head tables: the same random tables through model/docx/htmldoc ToMarkdown with 0..all leading rows marked as header rows (IsHeader / HasHeader as a thead, th-only rows, td-in-thead or a row-header column produce them), and in the documents as HTML thead/tbody/tfoot/bare tr with th or td, DOCX w:tblHeader, ODT table-header-rows(+table-rows), PPTX firstRow; heading texts drawn from a pool of 2-3 recurring titles in half of the documents; rag documents: model.Document (headings 1..6 as model.Heading or as heading-like paragraph listed in Layout.Headings, recurring titles adjacent and apart, paragraphs, lists depth<=3 of which a third start with a nested item, tables with header marks, page breaks) through rag.ChunkDocument(doc).ToMarkdownWithOptions under offset -2..+7 x max 1..6 x metadata x TOC x chunk separators x page numbers x chunk ids x document title; call histories: every generated document also through ONE Reader asked 4..7 times (Markdown / MarkdownWithOptions / MarkdownWithRAGOptions with offset -2..+7 x max 0..6 x metadata x TOC at random, repeats of an earlier configuration, Text() and Document() in between), the sweep files through one Reader under all 70 configurations in random order, every second rag document through one ChunkCollection rendered 3..5 times, each rendering checked under its own options; xlsx placement: three of five worksheet tables start below 1..9 blank rows and/or right of 1..6 blank columns (blank rows absent, empty <row> elements, or rows of value-less cells; optionally blank row/cells after the table); document model: every generated file and 150 (thorough 2500) arbitrary reader contents per format built through the VerifNewReader hooks (heading levels -2..12, list levels -1..5, numIds/styles with and without a numbering definition, empty and Markdown-like texts, empty/ragged/nil tables, header/footer texts equal to paragraphs, 0..4 slides with placeholders and notes, 0..3 sheets with ragged rows, empty-typed and merged cells and any MaxCol >= -1, slide/sheet selections with invalid indices, four HTML element lists per reader, all option flags, offset -3..8, max 0..7, metadata strings needing %q) through Markdown / MarkdownWithOptions / MarkdownWithRAGOptions (and tabula.Open.ToMarkdownWithOptions on files), 200 (3000) arbitrary chunk collections and lists through the chunk writers, each call tied to the Lean model; 300 (4000) line-soup documents plus every Markdown string seen through the harness reader vs the Lean reading spec; non-trivial = table containing '|', newline or backslash, document with a table/heading/list; distinct by canonical input"
+	c.Rep.Rule = "direct: random tables (1..14 rows x 1..12 cols; cells from an alphabet with '|', newline, spaces, empty, unicode, markdown punctuation and backslashes — about one cell in five carries one: in front of a pipe, of another backslash, of a newline, at the end of the cell, alone; regular-expression, path and LaTeX-like cells) through all six ToMarkdown writers; escape sweep: EVERY cell text over {backslash, pipe, letter, space} up to length 4 (thorough: plus newline, up to length 5), four per 2x2 table, through all six writers, docx/odt also with random ColSpan/vertical-merge cells; htmldoc tables with colspan/rowspan (htmlspan.go): 300 (thorough 4000) authored grids tiled with merged rectangles (1..9 rows x 1..8 columns, spelled as HTML does: the top-left cell carries the spans, covered positions have no cell, so rows all of whose cells are covered are rows without cells; short rows; a span of 1 written 1 or 0) whose expectation is the authored grid itself, half as many raw tables (0..4 cells per row, spans from -1, 0, 1..4, 1024, 1025, 2^31: overlapping cells, rowspans beyond the last row, spans that are not believed) of which every line must have the same number of cells and every row its texts in order, fixed witnesses, and the grid limit of 2^20 cells from both sides (thorough), each through ParsedTable.ToMarkdown and through the model table Document() builds; levels: the full box level -1..10 x offset -3..8 x max 0..7; documents: random block sequences (headings of every level the format expresses — DOCX 1..9 as built-in style / direct outlineLvl / custom style / derived style, ODT 1..10, HTML 1..6, PPTX titles —, paragraphs, nested lists depth<=3, tables with merges) written by independent DOCX/ODT/PPTX/HTML/XLSX writers under all Markdown options (metadata x TOC x offset -2..+7 x max 1..6, enumerated); heading sweep: per format files with a heading of every expressible level, each read under all 70 configurations (offset -2..+7 x max 0..6) through Reader.MarkdownWithRAGOptions, tabula.Open.ToMarkdownWithOptions and once through Reader.Markdown, Reader.MarkdownWithOptions, tabula.Open.ToMarkdown; head tables: the same random tables through model/docx/htmldoc ToMarkdown with 0..all leading rows marked as header rows (IsHeader / HasHeader as a thead, th-only rows, td-in-thead or a row-header column produce them), and in the documents as HTML thead/tbody/tfoot/bare tr with th or td, DOCX w:tblHeader, ODT table-header-rows(+table-rows), PPTX firstRow; heading texts drawn from a pool of 2-3 recurring titles in half of the documents; rag documents: model.Document (headings 1..6 as model.Heading or as heading-like paragraph listed in Layout.Headings, recurring titles adjacent and apart, paragraphs, lists depth<=3 of which a third start with a nested item, tables with header marks, page breaks) through rag.ChunkDocument(doc).ToMarkdownWithOptions under offset -2..+7 x max 1..6 x metadata x TOC x chunk separators x page numbers x chunk ids x document title; call histories: every generated document also through ONE Reader asked 4..7 times (Markdown / MarkdownWithOptions / MarkdownWithRAGOptions with offset -2..+7 x max 0..6 x metadata x TOC at random, repeats of an earlier configuration, Text() and Document() in between), the sweep files through one Reader under all 70 configurations in random order, every second rag document through one ChunkCollection rendered 3..5 times, each rendering checked under its own options; xlsx placement: three of five worksheet tables start below 1..9 blank rows and/or right of 1..6 blank columns (blank rows absent, empty <row> elements, or rows of value-less cells; optionally blank row/cells after the table); document model: every generated file and 150 (thorough 2500) arbitrary reader contents per format built through the VerifNewReader hooks (heading levels -2..12, list levels -1..5, numIds/styles with and without a numbering definition, empty and Markdown-like texts, empty/ragged/nil tables, header/footer texts equal to paragraphs, 0..4 slides with placeholders and notes, 0..3 sheets with ragged rows, empty-typed and merged cells and any MaxCol >= -1, slide/sheet selections with invalid indices, four HTML element lists per reader, all option flags, offset -3..8, max 0..7, metadata strings needing %q) through Markdown / MarkdownWithOptions / MarkdownWithRAGOptions (and tabula.Open.ToMarkdownWithOptions on files), 200 (3000) arbitrary chunk collections and lists through the chunk writers, each call tied to the Lean model; 300 (4000) line-soup documents plus every Markdown string seen through the harness reader vs the Lean reading spec; the generated office/HTML files also vary how the source DECLARES what rows and items refer to: every table's column declaration (ODT table-column, DOCX/PPTX tblGrid, HTML colgroup/col) exact in three spellings, absent, or naming fewer columns than the rows have cells, and a DOCX numbering.xml with mixed bullet/decimal multilevel numberings of a list's own, <w:lvl> elements in ascending/descending/shuffled order, unused levels left out, abstractNumIds that are not file positions; non-trivial = table containing '|', newline or backslash, document with a table/heading/list; distinct by canonical input"
 	direct(c)
 	levels(c)
 	documents(c)
